@@ -40,16 +40,25 @@ def eam_file():
                 ['Species', [['U.lattice_constant', '5.47']]]])
 
 
-FILES = {'pair': pair_file, 'eam': eam_file}
+def eam_nopair_file():
+    """an embedding/density-only model: the (required) [Pair] section is an empty header"""
+    f = eam_file()
+    f.section('Pair')[1][:] = []
+    return f
+
+
+FILES = {'pair': pair_file, 'eam': eam_file, 'eamnp': eam_nopair_file}
 
 # (section, key as typed, values)
 KEYS = {
     # values: one containing ':' and, later, '=' (a placeholder and a '>=' range); one equal to the current EXPANDED value of its item (pins it)
     'pair': [('Pair', 'O-O', ['as.lj 0.2 2.5', 'as.morse 1.8 2.0 0.6', '>0 as.buck 1000.0 0.3 ${Species:O.charge} >=1.5 as.zero']),
-             ('Pair', 'U - O', ['as.lj 0.3 2.2', 'cbuck 800.0 0.35']), ('Variables', 'A_uo', ['900.0']), ('Pair', 'Th-O', ['as.lj 0.4 2.1']),
+             ('Pair', 'U - O', ['as.lj 0.3 2.2', 'cbuck 800.0 0.35']), ('Variables', 'A_uo', ['900.0']), ('Pair', 'Th-O', ['as.zbl 8 8\n>=0.8 as.buck 1000.0 0.3 32.0', 'as.lj 0.4 2.1']),       # (a value that spans two lines)
              ('Tabulation', 'nr', ['5']), ('Tabulation', 'dr', ['0.25']), ('Potential-Form', 'cbuck(r, A, rho)', ['A*exp(-r/rho)']),
              ('Table-Form:tf', 'y', ['9 8 7 6']), ('Species', 'O.charge', ['-1.5']), ('NewSection', 'k', ['v']), ('Pair', 'U-U', ['as.zero']),
              ('Variables', 'newvar', ['1.5'])],
+    'eamnp': [('EAM-Embed', 'U', ['>=0 as.polynomial 0.5 -2.0']), ('EAM-Density', 'O', ['>=0 as.polynomial 1.0 0.5']), ('Species', 'U.lattice_constant', ['5.5']),
+              ('Pair', 'U-O', ['>=0 as.morse 1.0 2.0 0.5']), ('Tabulation', 'nrho', ['4'])],
     'eam': [('EAM-Embed', 'U', ['>=0 as.polynomial 0.5 -2.0']), ('EAM-Density', 'U', ['>=0 as.polynomial 1.0 0.5']), ('EAM-Density', 'Th', ['as.zero']),
             ('Pair', 'U-O', ['>=0 as.morse 1.0 2.0 0.5']), ('Species', 'U.lattice_constant', ['5.5']), ('Tabulation', 'nrho', ['4'])],
 }
@@ -85,10 +94,10 @@ def valid_cli(prefix):
 
 def cases(tier):
     out = []
-    for fname, d in (('pair', 3 if tier == 'quick' else 4), ('eam', 2 if tier == 'quick' else 3)):
+    for fname, d in (('pair', 3 if tier == 'quick' else 4), ('eam', 2 if tier == 'quick' else 3), ('eamnp', 2 if tier == 'quick' else 3)):
         for h in hist.histories(alphabet(fname), d, valid_api):
             out.append(dict(route='api', file=fname, ops=h, light=(len(h) > 3)))
-    for fname, d in (('pair', 2 if tier == 'quick' else 3), ('eam', 2)):
+    for fname, d in (('pair', 2 if tier == 'quick' else 3), ('eam', 2), ('eamnp', 2)):
         for h in hist.histories(alphabet(fname), d, valid_cli):
             out.append(dict(route='cli', file=fname, ops=h, grouped=False))
             if len(h) >= 2:
@@ -260,7 +269,7 @@ def run_cli(case):
         if a != b:
             viol.append(dict(sig='cli-differs-from-edited-file', msg='potable %s on the %s file gives %s; the hand-edited file gives %s' % (' '.join(args), fname, str(a)[:200], str(b)[:200]),
                              detail={'edited': ref.render()}))
-        elif b == ('config-error',):
+        elif b == ('config-error',) or any(len(o) > 3 and '\n' in o[3] for o in ops):
             pass          # the edited file is itself refused (e.g. a placeholder left dangling by a removal): both agree, nothing to list
         elif case.get('light'):
             li = R.potable(text, args=args + ['--list-items'], want_output=False)
